@@ -1468,24 +1468,117 @@ theorem anc_le {bases : Nat → List Nat} (hA : Acyclic bases) {x y : Nat} (h : 
   | refl => exact Nat.le_refl _
   | step hb _ ih => exact Nat.le_trans ih (Nat.le_of_lt (hA _ _ hb))
 
+/-- the `for subclass in classobj.subclasses` loop, for any body `g` (subclass, `_seen`) ↦ (yielded, `_seen'`) -/
+def loopSeen (g : Nat → List Nat → List Nat × List Nat) (l : List Nat) (acc : List Nat × List Nat) :
+    List Nat × List Nat :=
+  l.foldl (fun acc s => ((acc.1 ++ (g s acc.2).1), (g s acc.2).2)) acc
+
+theorem overridingFuel_succ (bases : Nat → List Nat) (order : List Nat) (owns : Nat → Nat → Bool)
+    (visible : Nat → Bool) (name f c : Nat) (first : Bool) (seen : List Nat) :
+    overridingFuel bases order owns visible name (f + 1) c first seen =
+      if !first && owns c name then (if seen.contains c then ([], seen) else ([c], c :: seen))
+      else loopSeen (fun s sn => overridingFuel bases order owns visible name f s false sn)
+        ((subclassesOf bases order c).filter visible) ([], seen) := rfl
+
+/-- what one call yields is duplicate free, new with respect to `_seen`, and ends up in `_seen` -/
+def GoodSeen (g : Nat → List Nat → List Nat × List Nat) : Prop :=
+  ∀ s seen, (g s seen).1.Nodup ∧ (∀ d ∈ (g s seen).1, d ∉ seen) ∧
+    ∀ x, x ∈ (g s seen).2 ↔ x ∈ seen ∨ x ∈ (g s seen).1
+
+theorem loopSeen_good (g : Nat → List Nat → List Nat × List Nat) (hg : GoodSeen g) (seen0 : List Nat) :
+    ∀ (l : List Nat) (acc : List Nat × List Nat),
+      (acc.1.Nodup ∧ (∀ d ∈ acc.1, d ∉ seen0) ∧ ∀ x, x ∈ acc.2 ↔ x ∈ seen0 ∨ x ∈ acc.1) →
+      ((loopSeen g l acc).1.Nodup ∧ (∀ d ∈ (loopSeen g l acc).1, d ∉ seen0) ∧
+        ∀ x, x ∈ (loopSeen g l acc).2 ↔ x ∈ seen0 ∨ x ∈ (loopSeen g l acc).1) := by
+  intro l
+  induction l with
+  | nil => intro acc h; exact h
+  | cons s l ih =>
+    intro acc ⟨hn, hd, hm⟩
+    simp only [loopSeen, List.foldl_cons]
+    apply ih
+    obtain ⟨gn, gd, gm⟩ := hg s acc.2
+    refine ⟨?_, ?_, ?_⟩
+    · refine List.nodup_append.2 ⟨hn, gn, ?_⟩
+      intro a ha b hb e
+      subst e
+      exact gd a hb ((hm a).2 (Or.inr ha))
+    · intro d hd'
+      rcases List.mem_append.1 hd' with h | h
+      · exact hd d h
+      · exact fun hs => gd d h ((hm d).2 (Or.inl hs))
+    · intro x
+      rw [gm x, hm x, List.mem_append]
+      constructor
+      · rintro ((h | h) | h)
+        · exact Or.inl h
+        · exact Or.inr (Or.inl h)
+        · exact Or.inr (Or.inr h)
+      · rintro (h | h | h)
+        · exact Or.inl (Or.inl h)
+        · exact Or.inl (Or.inr h)
+        · exact Or.inr h
+
+theorem overridingFuel_good (bases : Nat → List Nat) (order : List Nat) (owns : Nat → Nat → Bool)
+    (visible : Nat → Bool) (name : Nat) : ∀ (f : Nat) (first : Bool),
+      GoodSeen (fun c seen => overridingFuel bases order owns visible name f c first seen) := by
+  intro f
+  induction f with
+  | zero => intro first c seen; simp [overridingFuel]
+  | succ f ih =>
+    intro first c seen
+    simp only [overridingFuel_succ]
+    split
+    · by_cases hc : c ∈ seen
+      · simp [hc]
+      · simp only [List.contains_iff_mem, hc, if_false]
+        refine ⟨by simp, by simpa using hc, fun x => by simp [or_comm]⟩
+    · have := loopSeen_good _ (ih false) seen ((subclassesOf bases order c).filter visible) ([], seen)
+        ⟨by simp, by simp, fun x => by simp⟩
+      exact this
+
+/-- **overriding_nodup**: for *every* hierarchy (multiple inheritance included) no class is listed
+twice under "overridden in" (since commit 7da14b7; before: `overriding_duplicate_counterexample`). -/
+theorem overriding_nodup (bases : Nat → List Nat) (order : List Nat) (owns : Nat → Nat → Bool)
+    (visible : Nat → Bool) (c name : Nat) :
+    (overridingSubclasses bases order owns visible c name).Nodup :=
+  (overridingFuel_good bases order owns visible name _ true c []).1
+
+theorem loopSeen_mem (g : Nat → List Nat → List Nat × List Nat) (d : Nat) :
+    ∀ (l : List Nat) (acc : List Nat × List Nat), d ∈ (loopSeen g l acc).1 →
+      d ∈ acc.1 ∨ ∃ s ∈ l, ∃ seen, d ∈ (g s seen).1 := by
+  intro l
+  induction l with
+  | nil => intro acc h; exact Or.inl h
+  | cons s l ih =>
+    intro acc h
+    simp only [loopSeen, List.foldl_cons] at h
+    rcases ih _ h with h | ⟨s', hs', seen, hd⟩
+    · rcases List.mem_append.1 h with h | h
+      · exact Or.inl h
+      · exact Or.inr ⟨s, List.mem_cons_self .., acc.2, h⟩
+    · exact Or.inr ⟨s', List.mem_cons_of_mem _ hs', seen, hd⟩
+
 theorem overriding_inner (bases : Nat → List Nat) (order : List Nat) (owns : Nat → Nat → Bool)
-    (visible : Nat → Bool) (name : Nat) : ∀ (f s d : Nat),
-      d ∈ overridingFuel bases order owns visible name f s false → visible s = true →
+    (visible : Nat → Bool) (name : Nat) : ∀ (f s d : Nat) (seen : List Nat),
+      d ∈ (overridingFuel bases order owns visible name f s false seen).1 → visible s = true →
         owns d name = true ∧ Anc bases s d ∧ visible d = true := by
   intro f
   induction f with
-  | zero => intro s d h; simp [overridingFuel] at h
+  | zero => intro s d seen h; simp [overridingFuel] at h
   | succ f ih =>
-    intro s d h hv
-    simp only [overridingFuel, Bool.not_false, Bool.true_and] at h
+    intro s d seen h hv
+    simp only [overridingFuel_succ, Bool.not_false, Bool.true_and] at h
     split at h
     · rename_i ho
-      simp at h; subst h
-      exact ⟨ho, Anc.refl _, hv⟩
-    · simp only [List.mem_flatMap, List.mem_filter] at h
-      obtain ⟨s2, ⟨hs2, hv2⟩, hd2⟩ := h
-      obtain ⟨ho, ha, hvd⟩ := ih s2 d hd2 hv2
-      exact ⟨ho, anc_trans (Anc.step (mem_subclassesOf bases order s s2 hs2) (Anc.refl _)) ha, hvd⟩
+      split at h
+      · simp at h
+      · simp at h; subst h; exact ⟨ho, Anc.refl _, hv⟩
+    · rcases loopSeen_mem _ d _ _ h with h | ⟨s2, hs2, seen2, hd2⟩
+      · simp at h
+      · obtain ⟨hs2, hv2⟩ := List.mem_filter.1 hs2
+        obtain ⟨ho, ha, hvd⟩ := ih s2 d seen2 hd2 hv2
+        exact ⟨ho, anc_trans (Anc.step (mem_subclassesOf bases order s s2 hs2) (Anc.refl _)) ha, hvd⟩
 
 /-- **overriding_sound**: every class listed as "overridden in" for member `name` of `c` is a
 visible proper descendant of `c` that defines `name` itself. -/
@@ -1493,141 +1586,23 @@ theorem overriding_sound (bases : Nat → List Nat) (hA : Acyclic bases) (order 
     (owns : Nat → Nat → Bool) (visible : Nat → Bool) (c name d : Nat)
     (h : d ∈ overridingSubclasses bases order owns visible c name) :
     owns d name = true ∧ Anc bases c d ∧ c < d ∧ visible d = true := by
-  simp only [overridingSubclasses, overridingFuel, Bool.not_true, Bool.false_and,
-    Bool.false_eq_true, if_false, List.mem_flatMap, List.mem_filter] at h
-  obtain ⟨s, ⟨hs, hv⟩, hd⟩ := h
-  obtain ⟨ho, ha, hvd⟩ := overriding_inner bases order owns visible name _ s d hd hv
-  have hcs := mem_subclassesOf bases order c s hs
-  exact ⟨ho, anc_trans (Anc.step hcs (Anc.refl _)) ha,
-    Nat.lt_of_lt_of_le (hA s c hcs) (anc_le hA ha), hvd⟩
+  simp only [overridingSubclasses, overridingFuel_succ, Bool.not_true, Bool.false_and,
+    Bool.false_eq_true, if_false] at h
+  rcases loopSeen_mem _ d _ _ h with h | ⟨s, hs, seen, hd⟩
+  · simp at h
+  · obtain ⟨hs, hv⟩ := List.mem_filter.1 hs
+    obtain ⟨ho, ha, hvd⟩ := overriding_inner bases order owns visible name _ s d seen hd hv
+    have hcs := mem_subclassesOf bases order c s hs
+    exact ⟨ho, anc_trans (Anc.step hcs (Anc.refl _)) ha,
+      Nat.lt_of_lt_of_le (hA s c hcs) (anc_le hA ha), hvd⟩
 
-/-- The full statement "no class is listed twice" is false of the code: in a diamond
-1; 2(1); 3(1); 4(2,3) where only 1 and 4 define the member, `overriding_subclasses(1, m)`
-yields 4 twice (once through 2, once through 3) and the page says "overridden in 4, 4". -/
+/-- Historical (code before commit 7da14b7): in a diamond 1; 2(1); 3(1); 4(2,3) where only 1 and 4
+define the member, `overriding_subclasses(1, m)` yielded 4 twice and the page said "overridden in
+4, 4"; the current code yields it once. -/
 theorem overriding_duplicate_counterexample :
-    overridingSubclasses exBases [1, 2, 3, 4] (fun c _ => c == 1 || c == 4) (fun _ => true) 1 0 = [4, 4] := by
+    overridingSubclassesOld exBases [1, 2, 3, 4] (fun c _ => c == 1 || c == 4) (fun _ => true) 1 0 = [4, 4]
+    ∧ overridingSubclasses exBases [1, 2, 3, 4] (fun c _ => c == 1 || c == 4) (fun _ => true) 1 0 = [4] := by
   decide
-
-/-! ### `overriding_subclasses` lists nobody twice — only under single inheritance
-
-Full statement (false of the code, see `overriding_duplicate_counterexample`):
-`(overridingSubclasses bases order owns visible c name).Nodup`. -/
-
-def SingleInheritance (bases : Nat → List Nat) : Prop := ∀ d, (bases d).length ≤ 1
-
-theorem anc_chain {bases : Nat → List Nat} (hS : SingleInheritance bases) {x d : Nat}
-    (hx : Anc bases x d) : ∀ {y : Nat}, Anc bases y d → Anc bases x y ∨ Anc bases y x := by
-  induction hx with
-  | refl => intro y hy; exact Or.inr hy
-  | @step b d hb hxb ih =>
-    intro y hy
-    cases hy with
-    | refl => exact Or.inl (Anc.step hb hxb)
-    | step hb' hyb' =>
-      rename_i b'
-      have : b = b' := by
-        have hl := hS d
-        match hbd : bases d, hl with
-        | [], _ => rw [hbd] at hb; simp at hb
-        | [z], _ => rw [hbd] at hb hb'; simp at hb hb'; rw [hb, hb']
-        | _ :: _ :: _, hl => simp at hl
-      subst this
-      exact ih hyb'
-
-theorem nodup_flatMap_iff {f : Nat → List Nat} {l : List Nat} :
-    (l.flatMap f).Nodup ↔
-      (∀ a ∈ l, (f a).Nodup) ∧ l.Pairwise (fun a b => ∀ x ∈ f a, ∀ y ∈ f b, x ≠ y) := by
-  simp only [List.nodup_iff_pairwise_ne, List.pairwise_flatMap]
-
-theorem subclassesOf_nodup (bases : Nat → List Nat) (hS : SingleInheritance bases) (order : List Nat)
-    (ho : order.Nodup) (c : Nat) : (subclassesOf bases order c).Nodup := by
-  simp only [subclassesOf]
-  rw [nodup_flatMap_iff]
-  constructor
-  · intro d _
-    have hl := hS d
-    match hbd : bases d, hl with
-    | [], _ => simp
-    | [z], _ => by_cases h : z = c <;> simp [h]
-    | _ :: _ :: _, hl => simp at hl
-  · refine List.Pairwise.imp_of_mem ?_ (List.nodup_iff_pairwise_ne.1 ho)
-    intro a b _ _ hab x hxa y hyb
-    simp only [List.mem_map] at hxa hyb
-    obtain ⟨_, _, rfl⟩ := hxa
-    obtain ⟨_, _, rfl⟩ := hyb
-    exact hab
-
-theorem overriding_anc (bases : Nat → List Nat) (order : List Nat) (owns : Nat → Nat → Bool)
-    (visible : Nat → Bool) (name : Nat) : ∀ (f s d : Nat),
-      d ∈ overridingFuel bases order owns visible name f s false → Anc bases s d := by
-  intro f
-  induction f with
-  | zero => intro s d h; simp [overridingFuel] at h
-  | succ f ih =>
-    intro s d h
-    simp only [overridingFuel, Bool.not_false, Bool.true_and] at h
-    split at h
-    · simp at h; subst h; exact Anc.refl _
-    · simp only [List.mem_flatMap, List.mem_filter] at h
-      obtain ⟨s2, ⟨hs2, _⟩, hd2⟩ := h
-      exact anc_trans (Anc.step (mem_subclassesOf bases order s s2 hs2) (Anc.refl _)) (ih s2 d hd2)
-
-theorem siblings_disjoint (bases : Nat → List Nat) (hA : Acyclic bases) (hS : SingleInheritance bases)
-    (c s1 s2 d : Nat) (h1 : c ∈ bases s1) (h2 : c ∈ bases s2) (hne : s1 ≠ s2)
-    (a1 : Anc bases s1 d) (a2 : Anc bases s2 d) : False := by
-  have key : ∀ {s t : Nat}, c ∈ bases s → c ∈ bases t → s ≠ t → Anc bases s t → False := by
-    intro s t hs ht hst hanc
-    cases hanc with
-    | refl => exact hst rfl
-    | step hb hsb =>
-      rename_i b
-      have : b = c := by
-        have hl := hS t
-        match hbd : bases t, hl with
-        | [], _ => rw [hbd] at hb; simp at hb
-        | [z], _ => rw [hbd] at hb ht; simp at hb ht; rw [hb, ht]
-        | _ :: _ :: _, hl => simp at hl
-      subst this
-      have := anc_le hA hsb
-      have := hA s b hs
-      omega
-  rcases anc_chain hS a1 a2 with h | h
-  · exact key h1 h2 hne h
-  · exact key h2 h1 (Ne.symm hne) h
-
-theorem overriding_inner_nodup (bases : Nat → List Nat) (hA : Acyclic bases)
-    (hS : SingleInheritance bases) (order : List Nat) (ho : order.Nodup) (owns : Nat → Nat → Bool)
-    (visible : Nat → Bool) (name : Nat) : ∀ (f c : Nat) (first : Bool),
-      (overridingFuel bases order owns visible name f c first).Nodup := by
-  intro f
-  induction f with
-  | zero => intro c first; simp [overridingFuel]
-  | succ f ih =>
-    intro c first
-    simp only [overridingFuel]
-    split
-    · simp
-    · rw [nodup_flatMap_iff]
-      refine ⟨fun s _ => ih s false, ?_⟩
-      have hnd : ((subclassesOf bases order c).filter visible).Nodup :=
-        (subclassesOf_nodup bases hS order ho c).filter _
-      refine List.Pairwise.imp_of_mem ?_ (List.nodup_iff_pairwise_ne.1 hnd)
-      intro s1 s2 hs1 hs2 hne d hd1 d' hd2 e
-      subst e
-      exact siblings_disjoint bases hA hS c s1 s2 d
-        (mem_subclassesOf bases order c s1 (List.mem_filter.1 hs1).1)
-        (mem_subclassesOf bases order c s2 (List.mem_filter.1 hs2).1) hne
-        (overriding_anc bases order owns visible name f s1 d hd1)
-        (overriding_anc bases order owns visible name f s2 d hd2)
-
-/-- **overriding_nodup_partial**: under single inheritance (every class has at most one base) and
-with every class visited once by `defaultPostProcess`, no class is listed twice as overriding.
-Excluded: multiple inheritance, where the statement is false (`overriding_duplicate_counterexample`). -/
-theorem overriding_nodup_partial (bases : Nat → List Nat) (hA : Acyclic bases)
-    (hS : SingleInheritance bases) (order : List Nat) (ho : order.Nodup) (owns : Nat → Nat → Bool)
-    (visible : Nat → Bool) (c name : Nat) :
-    (overridingSubclasses bases order owns visible c name).Nodup :=
-  overriding_inner_nodup bases hA hS order ho owns visible name _ c true
 
 /-! ### the "inherited from" tables of a class page -/
 
